@@ -29,5 +29,8 @@ func (m Migrator) Migrate1to2(ctx sdk.Context) error {
 
 // Migrate2to3 migrates from version 2 to 3.
 func (m Migrator) Migrate2to3(ctx sdk.Context) error {
-	return v3.MigrateParams(ctx, m.keeper.storeKey, m.legacySubspace, m.keeper.cdc)
+	if err := v3.MigrateParams(ctx, m.keeper.storeKey, m.legacySubspace, m.keeper.cdc); err != nil {
+		return err
+	}
+	return v3.MigrateStore(ctx, m.keeper.storeKey, m.keeper.cdc)
 }
